@@ -1,6 +1,6 @@
 CONSTANTS
   MaxN = 4
-  Pool = 16
+  Pool = 22
   Full3 = TRUE
 SPECIFICATION Spec
 INVARIANTS Export
